@@ -12,9 +12,9 @@ OBLIGATIONS = [
        bound='one or two records per cell; 32-bit layer/datatype, coordinates and sizes within 2^20; grid = 1 (real 1.0); integer/delta/real/string codecs as typed tokens (C19 proves the codecs)',
        variants=[{'ELEM': e} for e in (0, 1)], unwind=20, timeout=400, mem_gb=12, nvec=5),
     Ob('reader_records_more', 'C04/rd_oas.c', [RO], ir='ni', stubs=TOKSTUBS, defines={'RC': 0, 'REFL': 0}, wrap_files=True,
-       what='read_oas on spec-encoded records (token stream): POLYGON with a general point list, PLACEMENT by name with each rotation code and the reflection bit, TEXT with inline string',
-       bound='one record per cell; values within 2^20 (polygon: 2^10)',
-       variants=[{'ELEM': 4}, {'ELEM': 2, 'LIM': 64}] + [{'ELEM': 3, 'RC': r, 'REFL': f} for r in range(4) for f in (0, 1)] + [{'ELEM': 5, 'REC': r, 'VERT': v, 'LIM': 64} for r in (23, 24, 25) for v in (0, 1)] + [{'ELEM': 6, 'CT': t, 'LIM': 64} for t in range(26)], unwind=20, timeout=400, mem_gb=12, nvec=5),
+       what='read_oas on spec-encoded records (token stream): POLYGON with a general point list, PLACEMENT by name with each rotation code and the reflection bit, TEXT with inline string, TRAPEZOID (records 23/24/25, both orientations) and all 26 CTRAPEZOID types against reference vertex tables, a CTRAPEZOID that takes type / width / height / layer / datatype from the modal variables in XYRELATIVE mode, a RECTANGLE with a repetition followed by one whose repetition field re-uses it (type 0)',
+       bound='one or two records per cell; values within 2^20 (POLYGON / TRAPEZOID / CTRAPEZOID geometry: +-64)',
+       variants=[{'ELEM': 4}, {'ELEM': 2, 'LIM': 64}] + [{'ELEM': 3, 'RC': r, 'REFL': f} for r in range(4) for f in (0, 1)] + [{'ELEM': 5, 'REC': r, 'VERT': v, 'LIM': 64} for r in (23, 24, 25) for v in (0, 1)] + [{'ELEM': 6, 'CT': t, 'LIM': 64} for t in range(26)] + [{'ELEM': 15, 'CT': t, 'LIM': 64} for t in (0, 13, 20, 25)] + [{'ELEM': 16}], unwind=20, timeout=400, mem_gb=12, nvec=5),
     Ob('reader_properties', 'C04/rd_oas.c', [RO], ir='ni', stubs=TOKSTUBS, defines={'RC': 0, 'REFL': 0, 'ELEM': 7}, wrap_files=True,
        what='read_oas on a RECTANGLE followed by two PROPERTY records: inline name, explicit value list [unsigned integer, PROPSTRING reference], then re-use of name and value list from the modal variables (PROPERTY with V=1 / LAST_PROPERTY), the PROPSTRING defined afterwards: both properties carry the name and [the integer - still an integer -, the referenced string], in order',
        bound='one element; two properties with two values (reference types 13 / 14 / 15, re-use by record 28 with V = 1 or by record 29), or one property with four values named through a PROPNAME table; integers 64 bit, real any bits, string byte arbitrary',
